@@ -74,6 +74,9 @@ pub struct Outcome {
     /// They do not stop the run; the parent reports them as KNOWN-FINDING if (and only if) the key is
     /// listed in the known-findings file, and as a violation otherwise.
     pub known: Vec<(String, String)>,
+    /// Data recorded during a violating run that makes the replay literal (e.g. the schedule
+    /// actually taken); merged into the case by `World::apply_artifact` before minimisation.
+    pub artifact: Option<Json>,
 }
 
 impl Outcome {
@@ -97,6 +100,7 @@ impl Outcome {
     pub fn to_json(&self) -> Json {
         let mut j = json!({
             "known": self.known,
+            "artifact": self.artifact,
             "stats": self.stats,
             "digest": self.digest,
             "nontrivial": self.nontrivial,
@@ -119,6 +123,9 @@ impl Outcome {
         o.nontrivial = j["nontrivial"].as_bool().unwrap_or(false);
         o.sim_time = j["sim_time"].as_u64().unwrap_or(0);
         o.log_hash = j["log_hash"].as_u64().unwrap_or(0);
+        if !j["artifact"].is_null() {
+            o.artifact = Some(j["artifact"].clone());
+        }
         if let Some(a) = j["known"].as_array() {
             for x in a {
                 o.known.push((x[0].as_str().unwrap_or("").to_owned(), x[1].as_str().unwrap_or("").to_owned()));
@@ -168,6 +175,11 @@ pub trait World: Sync {
     fn shrink(&self, case: &Json) -> Vec<Json> {
         let _ = case;
         Vec::new()
+    }
+    /// Make a case literal with what a violating run recorded (e.g. replace a schedule policy by the
+    /// choice sequence actually taken).
+    fn apply_artifact(&self, case: &Json, _artifact: &Json) -> Json {
+        case.clone()
     }
     /// Once per process before any execute.
     fn init_process(&self) {}
@@ -508,6 +520,7 @@ struct Agg {
     log_hashes: BTreeMap<u64, u64>,
     findings: Vec<Finding>,
     harness_errors: Vec<String>,
+    watchdog_load_timeouts: u64,
     known_seen: BTreeSet<String>,
     known_repeat: BTreeMap<String, u64>,
 }
@@ -711,8 +724,24 @@ pub fn parent_main(world: &'static dyn World, tier: Tier) -> i32 {
             println!("  class={} key={} detail={}", f.violation.class, f.violation.key, first_line(&f.violation.detail));
             continue;
         }
-        // Confirm in a fresh process.
-        let confirm = exec_case_in_child(id, &f.case, budget.hang_s);
+        // Confirm in a fresh process. The hang watchdog is the one wall-clock element of the harness:
+        // a reported hang is confirmed with a four times longer limit, alone on the machine's
+        // remaining capacity, and a hang that does not reproduce is counted as a load-induced
+        // time-out of the watchdog (the simulated execution itself is deterministic, so a real
+        // dead-lock or endless loop reproduces).
+        let is_hang = f.violation.class == "hang";
+        let confirm_hang_s = if is_hang { budget.hang_s * 4 } else { budget.hang_s };
+        let confirm = exec_case_in_child(id, &f.case, confirm_hang_s);
+        if is_hang && confirm.violation().is_none() {
+            let mut idx = f.prefix.clone();
+            idx.push(f.index);
+            let r = run_block(id, tier, base, &idx, confirm_hang_s);
+            let again = matches!(&r.abnormal, Some((i, res)) if *i == f.index && res.violation().map(|v| v.class == "hang").unwrap_or(false));
+            if !again {
+                agg.watchdog_load_timeouts += 1;
+                continue;
+            }
+        }
         let confirmed = match confirm.violation() {
             Some(v) => v.class == f.violation.class,
             None => false,
@@ -754,7 +783,18 @@ pub fn parent_main(world: &'static dyn World, tier: Tier) -> i32 {
             println!("  class={} key={} detail={}", f.violation.class, f.violation.key, first_line(&f.violation.detail));
             continue;
         }
-        let (case, viol) = minimise(world, id, f.case.clone(), confirm.violation().unwrap(), min_budget, budget.hang_s);
+        // Make the case literal (recorded schedule etc.) if that still reproduces.
+        let mut start_case = f.case.clone();
+        if let ChildResult::Outcome(co) = &confirm {
+            if let Some(art) = &co.artifact {
+                let lit = world.apply_artifact(&f.case, art);
+                let r = exec_case_in_child(id, &lit, budget.hang_s);
+                if r.violation().map(|v| v.class == f.violation.class).unwrap_or(false) {
+                    start_case = lit;
+                }
+            }
+        }
+        let (case, viol) = minimise(world, id, start_case, confirm.violation().unwrap(), min_budget, budget.hang_s);
         let path = write_replay(id, base, f.index, tier, &case, &viol, None);
         violations += 1;
         reported.insert(sig);
@@ -803,6 +843,7 @@ pub fn parent_main(world: &'static dyn World, tier: Tier) -> i32 {
         "stub_components": desc.stub_components,
         "known_finding_hits": known_hits,
         "harness_errors": agg.harness_errors,
+        "watchdog_load_timeouts_not_reproduced": agg.watchdog_load_timeouts,
         "workers": workers,
     });
     let extra = world.extra_evidence(&agg.stats);
